@@ -408,6 +408,13 @@ pub fn run(opts: &Opts) -> i32 {
                             // the first pass drops the parentheses around a binder that is the body of
                             // the same kind of binder, the second merges the two telescopes
                             "nested-binder-parentheses"
+                        } else if squeeze(&out) == squeeze(&out2) && third == out2 && squeeze(&text).contains("->(") {
+                            // a parenthesized operand behind an arrow: with the parentheses the chain is
+                            // laid out on one line, without them (second pass) the first group is broken
+                            "parenthesized-operand-relayout"
+                        } else if third == out2 && squeeze(&fmt::strip_comments(&out)) == squeeze(&fmt::strip_comments(&out2)) && squeeze(&out) != squeeze(&out2) {
+                            // a comment changes sides of a parenthesis or other token on the second pass
+                            "two-pass-comment-reattachment"
                         } else if squeeze(&out) == squeeze(&out2) && third == out2 {
                             let _ = width;
                             "two-pass-relayout"
